@@ -94,6 +94,25 @@ objs=[f*v*dP]'''),
     _c("conditional_tri", '''
 m=mesh("triangle"); V=space(m,"P",1); v=TestFunction(V); f=Coefficient(V); g=Coefficient(V)
 objs=[conditional(gt(f,g),f,g)*sqrt(abs(f)+1.0)*v*dx]'''),
+    # conditions at exact ties (both sides are the same expression): the boundary case of every comparison operator,
+    # which random data never hits
+    _c("condition_ties_tri", '''
+m=mesh("triangle"); V=space(m,"P",1); v=TestFunction(V); f=Coefficient(V)
+t=lambda c: conditional(c, 1.0, 2.0)
+objs=[(t(le(f,f))+3*t(ge(f,f))+5*t(lt(f,f))+7*t(gt(f,f))+11*t(eq(f,f))+13*t(ne(f,f))+17*t(And(le(f,f),ge(f,f)))+19*t(Or(lt(f,f),gt(f,f)))+23*t(Not(le(f,f))))*v*dx]'''),
+    # a custom rule on a tiny cut of the cell: every weight is ~1e-13 (tables whose entries are all very small must keep
+    # their relative precision in every backend)
+    _c("tiny_custom_weights_tri", '''
+m=mesh("triangle"); V=space(m,"P",2); u,v=TrialFunction(V),TestFunction(V); f=Coefficient(V)
+h=2.0**-21; P=h*np.array([[0.25,0.25],[0.5,0.125],[0.125,0.625]]); W=h*h*np.array([0.171875,0.1640625,0.1640625])
+objs=[f*u*v*dx(metadata={"quadrature_rule":"custom","quadrature_points":P,"quadrature_weights":W})]'''),
+    # one integral, several kernels (facets of two shapes), with coefficients and constants: per-kernel file-scope objects
+    _c("prism_ds_coefficient", '''
+m=mesh("prism"); V=space(m,"P",1); u,v=TrialFunction(V),TestFunction(V); f=Coefficient(V); k=Constant(m)
+objs=[f*v*ds + k*f*v*dx, f*u*v*ds(1) + u*v*ds(2)]'''),
+    _c("pyramid_ds_coefficient", '''
+m=mesh("pyramid"); V=space(m,"P",1); v=TestFunction(V); f=Coefficient(V)
+objs=[f*f*v*ds]'''),
     _c("mathfun_tri", '''
 m=mesh("triangle"); V=space(m,"P",1); f=Coefficient(V)
 objs=[exp(f)*sin(f)*dx + ln(f*f+2.0)*dx]'''),
@@ -165,6 +184,19 @@ objs=[u*v*dx(scheme="vertex",degree=1)]'''),
     _c("expr_literal_components", '''
 m=mesh("triangle"); V=space(m,"P",2); f=Coefficient(V); k=Constant(m); x=SpatialCoordinate(m)
 objs=[(as_vector((f, k*f, 1.0)), np.array([[0.25,0.25],[0.5,0.125]])), (grad(x), np.array([[0.125,0.5]])), (Identity(2)*f + as_matrix(((0.0,2.0),(x[0],0.5))), np.array([[0.25,0.5]]))]'''),
+    _c("expr_condition_ties", '''
+m=mesh("triangle"); V=space(m,"P",2); f=Coefficient(V)
+t=lambda c: conditional(c, 1.0, 2.0)
+objs=[(as_vector((t(le(f,f)), t(lt(f,f)), t(ge(f,f)), t(gt(f,f)), t(eq(f,f)), t(ne(f,f)), t(Not(ge(f,f))))), np.array([[0.25,0.25],[0.5,0.125]]))]'''),
+    # constants / coefficients whose UFL counts straddle a power of ten (c_9 | c_10, w_99 | w_100): numeric and textual
+    # order of their names differ
+    _c("expr_constants_9_10", '''
+m=mesh("triangle"); x=SpatialCoordinate(m); a=Constant(m, count=9); b=Constant(m, count=10); s=Constant(m, shape=(2,), count=99); r=Constant(m, count=100)
+objs=[(as_vector((a*x[0], b*x[1]+s[1], r*s[0])), np.array([[0.25,0.25],[0.5,0.125]]))]'''),
+    _c("form_constants_coefficients_9_10", '''
+m=mesh("triangle"); V=space(m,"P",1); W=space(m,"P",2); v=TestFunction(V); a=Constant(m, count=9); b=Constant(m, count=10)
+f=Coefficient(V, count=99); g=Coefficient(W, count=100)
+objs=[(a*f + b*g*g)*v*dx + b*f*v*ds]'''),
     _c("expr_literal_rank1", '''
 m=mesh("tetrahedron"); V=space(m,"P",1); u=TrialFunction(V); x=SpatialCoordinate(m)
 objs=[(as_vector((u, 2.0*u, u.dx(1))), np.array([[0.25,0.25,0.125]])), (grad(x)[0,:]*u, np.array([[0.125,0.5,0.25]]))]'''),
